@@ -238,7 +238,7 @@ func main() {
 	}
 	sort.Slice(sel, func(i, j int) bool { return sel[i].Name < sel[j].Name })
 	R.Extra("types_with_both_json_methods", len(sel))
-	n := R.N(40, 1500)
+	n := R.N(40, 12000)
 	stats := make([]stat, len(sel))
 	var wg sync.WaitGroup
 	sem := make(chan struct{}, 16)
